@@ -3,10 +3,13 @@
 package presign
 
 import (
+	"crypto/rand"
 	"github.com/cronokirby/saferith"
 	"github.com/taurusgroup/multi-party-sig/internal/round"
 	"github.com/taurusgroup/multi-party-sig/internal/vsym"
+	"github.com/taurusgroup/multi-party-sig/pkg/ecdsa"
 	"github.com/taurusgroup/multi-party-sig/pkg/math/curve"
+	"github.com/taurusgroup/multi-party-sig/pkg/math/sample"
 	"github.com/taurusgroup/multi-party-sig/pkg/party"
 	"github.com/taurusgroup/multi-party-sig/pkg/zk"
 	"github.com/taurusgroup/multi-party-sig/protocols/cmp/config"
@@ -100,4 +103,46 @@ func H_C04_CmpRoundNumbers() {
 		vsym.Assert((&sign2{}).Number() <= final, "the signing round is within the declared rounds")
 	}
 	vsym.Reach("cmp-round-numbers-checked")
+}
+
+// H_C04_CmpPresignatureAssembly (field mode): the last presigning round turns its tables into the presignature object that
+// the online phase uses for signing and for identifying a bad signature share. With symbolic nonce shares k_j and
+// chi_j (R = k^-1 G, RBar_j = k_j R, S_j = chi_j R, sum S_j = X) the real presign7.Finalize must output a presignature
+// under which every honest share sigma_j = m k_j + r chi_j passes VerifySignatureShares and a wrong share is attributed to
+// exactly its sender — i.e. the tables went into the right fields.
+func H_C04_CmpPresignatureAssembly() {
+	group := curve.Secp256k1{}
+	p7 := c05State()
+	ks, chis := map[party.ID]curve.Scalar{}, map[party.ID]curve.Scalar{}
+	k := group.NewScalar()
+	for _, id := range c05IDs {
+		ks[id], chis[id] = sample.Scalar(rand.Reader, group), sample.Scalar(rand.Reader, group)
+		k.Add(ks[id])
+	}
+	R := group.NewScalar().Set(k).Invert().ActOnBase()
+	X := group.NewPoint()
+	for _, id := range c05IDs {
+		p7.RBar[id], p7.S[id] = ks[id].Act(R), chis[id].Act(R)
+		X = X.Add(p7.S[id])
+	}
+	p7.R, p7.PublicKey, p7.KShare, p7.ChiShare, p7.Message = R, X, ks["a"], chis["a"], nil
+	p7.PresignatureID["c"] = c05Fill(4) // the XOR of the three identifiers must not vanish
+	next, err := p7.Finalize(make(chan *round.Message, 8))
+	out, ok := next.(*round.Output)
+	vsym.Assert(err == nil && ok, "consistent tables: presigning outputs a presignature")
+	pre := out.Result.(*ecdsa.PreSignature)
+	vsym.Assert(pre.Validate() == nil, "the presignature is well-formed")
+	msg := []byte("0123456789abcdef0123456789abcdef")
+	m, r := curve.FromHash(group, msg), R.XScalar()
+	shares := map[party.ID]ecdsa.SignatureShare{}
+	for _, id := range c05IDs {
+		shares[id] = group.NewScalar().Set(m).Mul(ks[id]).Add(group.NewScalar().Set(r).Mul(chis[id]))
+	}
+	vsym.Assert(pre.SignatureShare(msg).Equal(shares["a"]), "own signature share is m*k_a + r*chi_a")
+	vsym.Assert(len(pre.VerifySignatureShares(shares, msg)) == 0, "honest signature shares are accepted under the assembled presignature")
+	bad := c05IDs[vsym.Choose("bad", len(c05IDs))]
+	shares[bad] = group.NewScalar().Set(shares[bad]).Add(group.NewScalar().SetNat(new(saferith.Nat).SetUint64(1)))
+	culprits := pre.VerifySignatureShares(shares, msg)
+	vsym.Assert(len(culprits) == 1 && culprits[0] == bad, "a wrong signature share is attributed to exactly its sender")
+	vsym.Reach("cmp-presignature-assembly-checked")
 }
